@@ -22,11 +22,13 @@ type Step struct {
 	OK    bool        `json:"ok"`
 	Why   string      `json:"why"`
 	Off   string      `json:"off"`
+	Offs  []string    `json:"offs"`
 	Canon interface{} `json:"canon"`
 	// second oracle: outcome under the known deviations, when it differs
 	OKK    *bool       `json:"okK,omitempty"`
 	CanonK interface{} `json:"canonK,omitempty"`
 	KDevs  []string    `json:"kdevs,omitempty"`
+	OffsK  []string    `json:"offsK,omitempty"`
 }
 
 type History struct {
@@ -94,9 +96,24 @@ func cmdLoadHist(args []string) {
 				rep.Mismatch(vh.Mismatch{Case: cs, Step: si + 1, What: what, Known: known})
 				break
 			}
-			if *offender && err != nil && st.Off != "" && !strings.Contains(err.Error(), st.Off) {
-				cs["aspect"] = "offender"
-				rep.Mismatch(vh.Mismatch{Case: cs, Step: si + 1, What: fmt.Sprintf("offender: the error does not name %q: %v", st.Off, err), Known: known})
+			if *offender && err != nil && len(st.Offs) > 0 {
+				named := false
+				for _, o := range st.Offs {
+					if o != "" && strings.Contains(err.Error(), o) {
+						named = true
+					}
+				}
+				if !named {
+					if st.OKK != nil && !*st.OKK {
+						for _, o := range st.OffsK {
+							if o != "" && strings.Contains(err.Error(), o) {
+								known = strings.Join(st.KDevs, "+")
+							}
+						}
+					}
+					cs["aspect"] = "offender"
+					rep.Mismatch(vh.Mismatch{Case: cs, Step: si + 1, What: fmt.Sprintf("offender: the error names none of %q: %v", st.Offs, err), Known: known})
+				}
 			}
 			if len(diffs) > 0 {
 				cs["aspect"] = "schema"
